@@ -89,6 +89,7 @@ class World(object):
         self.current = None      # contract under verification
         self.frame_events = []
         self.elem = {}           # id(Sym) -> elem kinds  (python side annotation)
+        self.spec_modules = []
 
     # ------------------------------------------------------------------ modules
     def module(self, name):
@@ -275,6 +276,9 @@ class World(object):
         except PyRaise:
             pass
         if module.is_spec:
+            for m2 in self.spec_modules:
+                if m2 is not module and name in m2.defs:
+                    return self.module_attr(it, m2, name)
             v = self.specapi.lookup(name)
             if v is not NotImplemented:
                 return v
@@ -321,9 +325,11 @@ class World(object):
         return o
 
     def call_host(self, it, fn, args, kwargs, want=None):
-        """ call-out to host code: any value of kind `want` (default: any) or any Exception """
+        """ call-out to host code: any value of kind `want` (default: any) or any Exception.  The ghost log records
+            callee, arguments and outcome. """
         ctx = it.ctx
-        ctx.log.append(('host', fn.name, list(args)))
+        entry = {'kind': 'host', 'fn': fn, 'args': list(args), 'kwargs': dict(kwargs), 'result': None}
+        ctx.log.append(entry)
         cur = self.current
         if cur is not None and getattr(cur, 'on_host_call', None):
             cur.on_host_call(it, fn, args, kwargs)
@@ -332,10 +338,14 @@ class World(object):
             # raises an XLError instance (canonical or not)
             code = ctx.fresh(z3.IntSort(), 'hosterr')
             ctx.assume(code >= 0)
-            raise PyRaise('XLError', mk_err(code))
+            e = mk_err(code)
+            entry['result'] = ('raise', 'XLError', e)
+            raise PyRaise('XLError', e)
         if c == 2:
+            entry['result'] = ('raise', 'AnyException', None)
             raise PyRaise('AnyException', ExcInst('AnyException'))
         r = ctx.fresh_val('host_ret', kinds=(want,) if want else ALL_KINDS)
+        entry['result'] = ('ret', r)
         return r
 
 
@@ -347,9 +357,40 @@ class CompiledRegex(object):
 
 # ---------------------------------------------------------------------------------------------------- loops
 
-def merge_eval(it, thunk):
+_MERGE_CACHE = {}
+
+
+def arg_key(v):
+    if isinstance(v, Sym):
+        return ('S', v.val.sexpr(), tuple(sorted(v.kinds)))
+    if isinstance(v, (list, tuple)):
+        return tuple(arg_key(x) for x in v)
+    if v is None or isinstance(v, (bool, int, float, str)):
+        return ('C', type(v).__name__, v)
+    if isinstance(v, Obj):
+        return ('Obj', tuple(sorted((k, arg_key(x)) for k, x in v.attrs.items())))
+    return ('O', repr(v))
+
+
+def merge_eval(it, thunk, key=None):
     """ evaluate a side-effect-free predicate thunk(it2) -> value along all its paths and merge into one Bool term
-        (the disjunction over paths of path-condition /\\ truth).  A path that raises counts as False. """
+        (the disjunction over paths of path-condition /\\ truth).  A path that raises counts as False.
+        `key` (callee, argument term ids): results are cached per (key, path condition) - terms are hash-consed and the
+        fresh-name sequence of a run is deterministic, so re-executions of the same prefix see the same terms. """
+    parent = it.ctx
+    ck = None
+    if key is not None:
+        ck = (key, tuple(c.sexpr() for c in parent.pc))
+        hit = _MERGE_CACHE.get(ck)
+        if hit is not None:
+            return hit[0]
+    r = _merge_eval(it, thunk)
+    if ck is not None:
+        _MERGE_CACHE[ck] = (r, list(parent.pc))     # keep the terms alive so their ids stay unique
+    return r
+
+
+def _merge_eval(it, thunk):
     parent = it.ctx
     base_len = len(parent.pc)
     disj = []
@@ -378,6 +419,8 @@ def merge_eval(it, thunk):
             res = None
         except PyRaise:
             res = False
+        finally:
+            sub.undo_narrowing()
         for i in range(len(prefix), len(sub.trace)):
             ch, n = sub.trace[i]
             for alt in range(ch + 1, n):
@@ -419,6 +462,8 @@ def merge_value(it, thunk):
             raise OutOfReach('merged expression may raise %s' % pr.cls)
         except Unliftable as u:
             raise OutOfReach(str(u))
+        finally:
+            sub.undo_narrowing()
         for i in range(len(prefix), len(sub.trace)):
             ch, n = sub.trace[i]
             for alt in range(ch + 1, n):
@@ -431,6 +476,18 @@ def merge_value(it, thunk):
     for c, v in reversed(cases[:-1]):
         t = z3.If(c, v, t)
     return z3.simplify(t)
+
+
+def term_kinds(t):
+    """ kinds a merged Val term can have (leaves of the If-chain that are constructor applications) """
+    if z3.is_app(t) and t.decl().kind() == z3.Z3_OP_ITE:
+        return term_kinds(t.arg(1)) | term_kinds(t.arg(2))
+    if z3.is_app(t):
+        nm = t.decl().name()
+        for k in KINDS:
+            if nm == CON[k].name() and t.num_args() == CON[k].arity():
+                return frozenset((k,))
+    return ALL_KINDS
 
 
 def stored_names(nodes):
@@ -720,7 +777,18 @@ class Axioms(object):
         if what in ('max', 'min'):
             if it.ctx.branch(z3.Length(s) == 0):
                 raise PyRaise('ValueError', ExcInst('ValueError'))
-        r = Sym(f(s), NUMERIC if what == 'sum' else self.world.elem_kinds(seq))
+        ek = self.world.elem_kinds(seq)
+        if what == 'sum':
+            if ek <= frozenset((BOOL, INT)):
+                r = Sym(f(s), (INT,))      # a sum of ints/bools is an int
+                it.ctx.assume(REC[INT](f(s)))
+            elif ek <= NUMERIC:
+                r = Sym(f(s), (INT, FLOAT))
+                it.ctx.assume(z3.Or(REC[INT](f(s)), REC[FLOAT](f(s))))
+            else:
+                raise OutOfReach('sum over a sequence that may hold non-numbers')
+        else:
+            r = Sym(f(s), ek)
         return r
 
     def sorted(self, it, seq):
@@ -770,7 +838,27 @@ class Axioms(object):
                              f['weekday'](us) >= 0, f['weekday'](us) <= 6))
 
     def sym_comprehension(self, it, e, g, frame, n, item):
-        raise OutOfReach('comprehension over a symbolic sequence at line %d' % e.lineno)
+        """ [elt for target in seq] over a symbolic sequence, no filter: a fresh sequence r with len(r) = len(seq) and
+            r[j] = elt(seq[j]) for every j (the element expression is merged over its paths and must not raise) """
+        if g.ifs:
+            raise OutOfReach('filtering comprehension over a symbolic sequence at line %d' % e.lineno)
+        ctx = it.ctx
+        ctx.counter += 1
+        j = z3.Int('cj!%d' % ctx.counter)
+
+        def elt(it2):
+            sub = Frame(frame.module, parent=frame)
+            it2.ctx.assume(z3.And(j >= 0, j < n))
+            it2.assign(g.target, item(j), sub)
+            return it2.eval(e.elt, sub)
+        term = merge_value(it, elt)
+        r = ctx.fresh(SeqVal, 'comp')
+        ctx.assume(z3.Length(r) == n)
+        ctx.assume(z3.ForAll([j], z3.Implies(z3.And(j >= 0, j < n), r[j] == term)))
+        out = mk_list(r)
+        out.fresh = True
+        self.world.set_elem_kinds(out, term_kinds(term))
+        return out
 
 
 # ---------------------------------------------------------------------------------------------------- spec API
@@ -791,6 +879,8 @@ class SpecAPI(object):
                    'ANY', 'VALUE_T', 'HOSTFN'):
             self.table[nm] = getattr(_api, nm)
         self.table['OMITTED'] = _api.OMITTED
+        self.table['datetime'] = ExtRef('datetime')
+        self.table['math'] = ExtRef('math')
         for nm in ('SEQ', 'ARGS', 'CONST', 'TUPLE', 'LISTN', 'OBJECT'):
             self.table[nm] = Builtin('dom.' + nm, (lambda f: (lambda it, a, k: f(*a, **k)))(getattr(_api, nm)))
 
@@ -937,6 +1027,69 @@ class SpecAPI(object):
             self.world.set_elem_kinds(r, ALL_KINDS - {LIST})
             return r
         raise OutOfReach('flat of %r' % (v,))
+
+    def s_result_of(self, it, a, k):
+        """ result_of(ContractClass, *args): the outcome the contract of a callee specifies for these arguments.
+            Inlines the spec, or - when the contract under verification lists the callee in `opaque_callees` - the
+            same uninterpreted application the body's call produced. """
+        cls = a[0]
+        args = list(a[1:])
+        c = None
+        for cc in self.world.contracts.values():
+            if cc.name == cls.name:
+                c = cc
+        if c is None:
+            raise OutOfReach('result_of: unknown contract %r' % (cls,))
+        cur = self.world.current
+        if cur is not None and c.name in (cur.decl.get('opaque_callees') or ()):
+            return c.opaque_apply(it, args)
+        return it.call(c.fns['spec'], args)
+
+    def s_calls(self, it, a, k):
+        fn = a[0]
+        return [list(e['args']) for e in it.ctx.log if isinstance(e, dict) and e['kind'] == 'host' and e['fn'] is fn]
+
+    def s_call_result(self, it, a, k):
+        fn, i = a
+        es = [e for e in it.ctx.log if isinstance(e, dict) and e['kind'] == 'host' and e['fn'] is fn]
+        r = es[i]['result']
+        if r is None or r[0] != 'ret':
+            raise OutOfReach('call_result of a call that raised')
+        return r[1]
+
+    def s_xl_type(self, it, a, k):
+        """ the type tags used by operators.value_and_type """
+        from .interp import T_INT, T_FLOAT, T_COMPLEX, T_STR, T_NONE, T_DATETIME, T_XLERROR
+        return {'number': (T_INT, T_FLOAT, T_COMPLEX), 'date': T_DATETIME, 'text': (T_STR,), 'blank': T_NONE,
+                'error': T_XLERROR}[a[0]]
+
+    def s_date_us(self, it, a, k):
+        """ microseconds since 0001-01-01 00:00 of a datetime, as a real number """
+        v = a[0]
+        if isinstance(v, datetime.datetime):
+            return float(date_to_us(v))
+        s = as_sym(v)
+        if it.ctx.narrow(s) != DATE:
+            raise OutOfReach('date_us of non-date')
+        return mk_float(s.pay(DATE))
+
+    def s_date_from_us(self, it, a, k):
+        """ the datetime at the given (real) microsecond count; OverflowError outside 0001..9999 like datetime + timedelta """
+        s = as_sym(a[0])
+        kd = it.ctx.narrow(s)
+        if kd not in NUMERIC:
+            raise OutOfReach('date_from_us of non-number')
+        it.ctx.flags.add('date_real_us')
+        return self.world.ops.mk_date_checked(it, real_term(it.ctx, s))
+
+    def s_dateutil_parse(self, it, a, k):
+        return self.world.builtins.x_dateutil_parser_parse(it, a, k)
+
+    def s_parity_true(self, it, a, k):
+        """ parity of the number of true items: no SMT definition -> an unconstrained boolean (so the clause that uses it is
+            NOT proved symbolically; the flag makes the evidence say so; natively it is exact) """
+        it.ctx.flags.add('spec:parity_true is unconstrained symbolically (bounded only)')
+        raise OutOfReach('parity_true: parity of a sum over a symbolic sequence (bounded only)')
 
     def s_collapse_spaces(self, it, a, k):
         return self.world.builtins.x_re_sub(it, [' {2,}', ' ', a[0]], {})
